@@ -32,7 +32,18 @@ def mlw_continuations(case):
 
 ENGINES = {
     "mlw": {"continuations": mlw_continuations},
+    "fmt": {},
 }
+
+STD_DISPLAY = "impl Display for integers and f64 (std), str::trim_end_matches, String concatenation, Duration::as_millis/as_nanos are modelled, not verified"
+_FMT_TB = [KERNEL, TIE, STD_DISPLAY]
+_FMT_RULE = ("engine fmt: for every sampled client configuration (prefix shapes, 0-5 default tags, optional default container) all 24 "
+             "entry points x {plain, tagged try_send, tagged quiet send} x all 16 subsets of {rate, tags, container, timestamp}, values "
+             "from type-boundary edge sets and random; an exhaustive {valid, invalid} x {accept, refuse(3 kinds)} x form x entry table; "
+             "random call sequences with accept/refuse scripts; a hostile stream (delimiter-laden, empty, multi-byte, very long strings); "
+             "the 10 standalone constructors. A case is distinct by its text; non-trivial = anything but a plain accepted call")
+_FMT_NOTE = ("Trusted: Lean kernel + propext/Classical.choice/Quot.sound; the hand-written model of MetricFormatter/StatsdClient/"
+             "MetricBuilder is tied to the code only by the correspondence harness; std's integer/float Display and Duration arithmetic")
 
 _WRITER_TB = [KERNEL, TIE, STD_BUFWRITER, ORACLE]
 _WRITER_RULE = ("engine mlw: exhaustive small scope (capacities 0..4(6), terminators of length 0..2(3), op sequences over boundary "
@@ -46,6 +57,46 @@ _WRITER_NOTE = ("Trusted: Lean kernel + propext/Classical.choice/Quot.sound; the
                 "generators); all-or-nothing underlying writes")
 
 PROPS = {
+    "C01": {
+        "engine": "fmt",
+        "level_text": "Lean 4 theorems C01.format_is_line / call_emits_line / name_of_prefix / parse_back / numerals_delimFree / standalone_same_text: every string any call form of any entry point hands the sink is the grammar's rendering of exactly the supplied fields, and parsing a well-formed rendered line returns it. The macro call form is tied in by C17.",
+        "level_note": _FMT_NOTE + "; float tokens are delimiter-free only by std's printing (checked per sampled float)",
+        "technique": "Lean 4 proof (formatter = grammar rendering; parser round trip via splitOn/joinSep lemmas) + model/implementation correspondence with parse-back predicates",
+        "trusted_base": _FMT_TB,
+        "assumptions": [STD_DISPLAY, "float text is what std printed for the sampled value"],
+        "rule": _FMT_RULE,
+        "exhaustive_part": "the outcome table and, per sampled configuration, every entry point x form x subset of optional sections; configurations and values are sampled",
+    },
+    "C02": {
+        "engine": "fmt",
+        "level_text": "Lean 4 theorems C02.unsigned_roundtrip / signed_roundtrip / canonical / integers_exact / timer_millis / timer_overflow / histogram_nanos / histogram_overflow / duration_lists / packed_keeps_length_and_order / float_text_passthrough. Integers, durations, lists: whole range. PARTIAL for 'all finite f64': cadence passes std's text through unchanged (proved); that std's text parses back bit-identically is checked for every sampled float by the harness, not proved.",
+        "level_note": _FMT_NOTE + "; std's shortest-round-trip float printing is trusted (partial clause)",
+        "technique": "Lean 4 proof (numeral round trips, conversion arithmetic) + model/implementation correspondence on boundary values",
+        "trusted_base": _FMT_TB + ["std's f64 Display prints a decimal that parses back to the same bits (checked per sampled float only)"],
+        "assumptions": [STD_DISPLAY],
+        "rule": _FMT_RULE,
+        "exhaustive_part": "as C01; Duration boundaries (+-1 ns around both overflow limits) are always included",
+    },
+    "C03": {
+        "engine": "fmt",
+        "level_text": "Lean 4 theorems C03.one_emit_iff_valid / ok_means_accepted / refused_means_sink_error / rejected_means_invalid_input / handler_silent_on_success / quiet_never_errors / sequence_pointwise over the call model, for all entry points, forms, values and sink-outcome scripts.",
+        "level_note": _FMT_NOTE + "; error identity is observed through a unique token embedded in each scripted io::Error",
+        "technique": "Lean 4 proof (case analysis of the call model; statelessness lifts to sequences) + scripted-sink correspondence",
+        "trusted_base": _FMT_TB,
+        "assumptions": [STD_DISPLAY, "the sink is called synchronously by send_metric; the error handler is the one configured on the client"],
+        "rule": _FMT_RULE,
+        "exhaustive_part": "{valid, invalid} x {accept, refuse x 3 kinds} x {plain, try_send, send} x 24 entry points; sequences are sampled",
+    },
+    "C04": {
+        "engine": "fmt",
+        "level_text": "Lean 4 theorems C04.defaults_then_call_tags / container_override / override_does_not_persist / no_defaults_adds_nothing / emitted_decoration over the client model; uniformity over the seven separately written *_with_tags impls is established by the exhaustive entry-point enumeration of the correspondence.",
+        "level_note": _FMT_NOTE,
+        "technique": "Lean 4 proof (fold invariant over builder operations) + model/implementation correspondence over every entry point and form",
+        "trusted_base": _FMT_TB,
+        "assumptions": [STD_DISPLAY],
+        "rule": _FMT_RULE,
+        "exhaustive_part": "per sampled configuration every entry point x form x subset of optional sections",
+    },
     "C05": {
         "engine": "mlw",
         "level_text": "Lean 4 theorems C05.framing / refines_spec / invariant_reachable: for every capacity (0 and 1 included), terminator, history of emits/flushes + drop and every oracle, each attempted underlying write is a frame; the concrete writer refines the pending-lines spec. Model tied to the code by the correspondence check on every run.",
@@ -90,6 +141,8 @@ PROPS = {
 
 
 MANIFEST_ENGINES = [
+    {"name": "fmt", "path": "harness/src/bin/fmt.rs", "serves_properties": ["C01", "C02", "C03", "C04"],
+     "kind_free_text": "drives StatsdClient (24 entry points x 3 call forms x builder options), the standalone constructors, a scripted MetricSink and a recording error handler"},
     {"name": "mlw", "path": "harness/src/bin/mlw.rs", "serves_properties": ["C05", "C06", "C07", "C19"],
      "kind_free_text": "drives cadence::ext::MultiLineWriter and BufferedSpyMetricSink (also through StatsdClient::flush and QueuingMetricSink::flush) over a scripted recording Write; the Lean driver runs the model on the same cases"},
 ]
